@@ -796,3 +796,858 @@ Proof.
       destruct (lg_in st h) as [e Ie]; [lia|]. destruct (Logged h e pid Ie Ia) as [T' _]. congruence. }
     lia.
 Qed.
+
+(* ---------- exit cascades to the children; Join waits for them ---------- *)
+Definition is_child (c : nat) (h : hook) : bool := match h with HChild x => Nat.eqb x c | _ => false end.
+Definition is_wait (p : nat) (h : hook) : bool := match h with HWaitDone x => Nat.eqb x p | _ => false end.
+
+Definition in_frames (st : pstate) (h : hook) : Prop :=
+  exists j fr, j < length (threads st) /\ In fr (t_frames (get_thread st j)) /\ In h (fst fr).
+
+(* a forked child that is still running is reachable from its parent: the parent holds it as a hook, or a thread
+   that is running the parent's hooks still has it to do *)
+Definition Casc (st : pstate) : Prop :=
+  forall c p, c < length (procs st) -> p_parent (get_proc st c) = Some p ->
+    p < length (procs st) /\
+    (p_term (get_proc st c) = true \/ In (HChild c) (p_hooks (get_proc st p)) \/ in_frames st (HChild c)).
+
+Lemma get_thread_upd_other st tid t j : j <> tid -> get_thread (upd_thread st tid t) j = get_thread st j.
+Proof. intros N. unfold get_thread, upd_thread. cbn [threads]. apply nth_set_nth_other. congruence. Qed.
+
+Lemma in_frames_upd st tid t h :
+  tid < length (threads st) ->
+  (forall fr, In fr (t_frames (get_thread st tid)) -> In h (fst fr) -> exists fr', In fr' (t_frames t) /\ In h (fst fr')) ->
+  in_frames st h -> in_frames (upd_thread st tid t) h.
+Proof.
+  intros L Keep [j [fr [Lj [Ifr Ih]]]]. destruct (Nat.eq_dec j tid) as [->|N].
+  - destruct (Keep fr Ifr Ih) as [fr' [I1 I2]]. exists tid, fr'. rewrite length_threads_upd, get_thread_upd_same by exact L. auto.
+  - exists j, fr. rewrite length_threads_upd, get_thread_upd_other by exact N. auto.
+Qed.
+
+Lemma in_frames_new st tid t h fr :
+  tid < length (threads st) -> In fr (t_frames t) -> In h (fst fr) -> in_frames (upd_thread st tid t) h.
+Proof. intros L I1 I2. exists tid, fr. rewrite length_threads_upd, get_thread_upd_same by exact L. auto. Qed.
+
+Lemma in_frames_procs st st' h : threads st' = threads st -> in_frames st h -> in_frames st' h.
+Proof. intros E [j [fr [Lj [Ifr Ih]]]]. exists j, fr. unfold get_thread in *. rewrite E. auto. Qed.
+
+Lemma Casc_same st st' :
+  procs st' = procs st -> threads st' = threads st -> Casc st -> Casc st'.
+Proof.
+  intros Ep Et H c p Lc Pp. unfold get_proc in *. rewrite Ep in *. destruct (H c p Lc Pp) as [Lp D]. split; auto.
+  destruct D as [D|[D|D]]; auto. right. right. eapply in_frames_procs; eauto.
+Qed.
+
+(* an update of one process that keeps its parent, never un-terminates it and only adds hooks *)
+Lemma Casc_upd st pid p' :
+  pid < length (procs st) ->
+  p_parent p' = p_parent (get_proc st pid) ->
+  (p_term (get_proc st pid) = true -> p_term p' = true) ->
+  (forall c, In (HChild c) (p_hooks (get_proc st pid)) -> In (HChild c) (p_hooks p')) ->
+  Casc st -> Casc (upd_proc st pid p').
+Proof.
+  intros Lp Par Tm Hk H c p Lc Pp.
+  assert (Len : length (procs (upd_proc st pid p')) = length (procs st)) by (unfold upd_proc; cbn; apply set_nth_length).
+  rewrite Len in *.
+  assert (Pp' : p_parent (get_proc st c) = Some p).
+  { destruct (Nat.eq_dec pid c) as [->|N]; [rewrite get_upd_same in Pp by exact Lc; congruence|rewrite get_upd_other in Pp by exact N; exact Pp]. }
+  destruct (H c p Lc Pp') as [Lq D]. split; auto.
+  destruct D as [D|[D|D]].
+  - left. destruct (Nat.eq_dec pid c) as [->|N]; [rewrite get_upd_same by exact Lc; auto|rewrite get_upd_other by exact N; exact D].
+  - right. left. destruct (Nat.eq_dec pid p) as [->|N]; [rewrite get_upd_same by exact Lq; auto|rewrite get_upd_other by exact N; exact D].
+  - right. right. eapply in_frames_procs; [|exact D]. reflexivity.
+Qed.
+
+(* the flip of q: q is terminated; what q held is in `taken` *)
+Lemma Casc_flip st q err :
+  q < length (procs st) -> Casc st ->
+  forall c p, c < length (procs (fst (flip st q err))) -> p_parent (get_proc (fst (flip st q err)) c) = Some p ->
+    p < length (procs (fst (flip st q err))) /\
+    (p_term (get_proc (fst (flip st q err)) c) = true \/ In (HChild c) (p_hooks (get_proc (fst (flip st q err)) p)) \/
+     in_frames (fst (flip st q err)) (HChild c) \/ In (HChild c) (snd (flip st q err))).
+Proof.
+  intros Lq H c p. unfold flip. destruct (p_term (get_proc st q)) eqn:T; cbn [fst snd].
+  - intros Lc Pp. destruct (H c p Lc Pp) as [Lp D]. split; auto. tauto.
+  - set (q' := mkproc true err [] [] (p_parent (get_proc st q)) (p_wait (get_proc st q))).
+    assert (Len : length (procs (upd_proc st q q')) = length (procs st)) by (unfold upd_proc; cbn; apply set_nth_length).
+    rewrite Len. intros Lc Pp.
+    assert (Pp' : p_parent (get_proc st c) = Some p).
+    { destruct (Nat.eq_dec q c) as [->|N]; [rewrite get_upd_same in Pp by exact Lc; exact Pp|rewrite get_upd_other in Pp by exact N; exact Pp]. }
+    destruct (H c p Lc Pp') as [Lp D]. split; auto.
+    destruct D as [D|[D|D]].
+    + left. destruct (Nat.eq_dec q c) as [->|N]; [rewrite get_upd_same by exact Lc; reflexivity|rewrite get_upd_other by exact N; exact D].
+    + destruct (Nat.eq_dec q p) as [->|N]; [right; right; right; exact D|].
+      right. left. rewrite get_upd_other by exact N. exact D.
+    + right. right. left. eapply in_frames_procs; [|exact D]. reflexivity.
+Qed.
+
+Lemma advance_casc fuel : forall st tid,
+  tid < length (threads st) -> Casc st -> kids_ok st -> Casc (advance fuel st tid).
+Proof.
+  induction fuel as [|fuel IH]; intros st tid L H K; cbn [advance]; [exact H|].
+  destruct (t_frames (get_thread st tid)) as [|[[|h hs] err] rest] eqn:F; [exact H| |].
+  - (* empty frame *)
+    apply IH; [rewrite length_threads_upd; exact L| |].
+    + intros c p Lc Pp. destruct (H c p Lc Pp) as [Lp D]. split; auto. destruct D as [D|[D|D]]; auto.
+      right. right. apply in_frames_upd; auto. intros fr Ifr Ih. rewrite F in Ifr. destruct Ifr as [<-|Ifr]; [contradiction|].
+      exists fr. auto.
+    + destruct K as [K1 K2]. split; [|exact K2]. intros t hs e c It Ifr Ih. apply in_threads_upd in It.
+      destruct It as [->|It]; [|apply (K1 t hs e c); auto]. cbn in Ifr.
+      apply (K1 (get_thread st tid) hs e c); auto using get_thread_in. rewrite F. right. exact Ifr.
+  - destruct h as [x|c0|par|x].
+    + (* entered *)
+      apply (Casc_same (upd_thread st tid (mkthread ((HParked x :: hs, err) :: rest)))); [reflexivity|reflexivity|].
+      intros c p Lc Pp. destruct (H c p Lc Pp) as [Lp D]. split; auto. destruct D as [D|[D|D]]; auto.
+      right. right. apply in_frames_upd; auto. intros fr Ifr Ih. rewrite F in Ifr. destruct Ifr as [<-|Ifr].
+      * exists (HParked x :: hs, err). split; [left; reflexivity|]. cbn in *. destruct Ih as [E|Ih]; [discriminate|right; exact Ih].
+      * exists fr. split; [right; exact Ifr|exact Ih].
+    + (* HChild c0: the child is flipped, its hooks are the next frame *)
+      assert (Lc0 : c0 < length (procs st)).
+      { destruct K as [K1 _]. apply (K1 (get_thread st tid) (HChild c0 :: hs) err c0); auto using get_thread_in. rewrite F. left. reflexivity. left. reflexivity. }
+      pose proof (Casc_flip st c0 err Lc0 H) as CF.
+      pose proof (flip_tok st c0 err 0) as [_ [Th _]].
+      assert (Tm : p_term (get_proc (fst (flip st c0 err)) c0) = true).
+      { unfold flip. destruct (p_term (get_proc st c0)) eqn:T; cbn [fst]; auto. rewrite get_upd_same by exact Lc0. reflexivity. }
+      assert (Len : length (procs (fst (flip st c0 err))) = length (procs st)).
+      { unfold flip. destruct (p_term (get_proc st c0)); cbn [fst]; auto. unfold upd_proc. cbn. apply set_nth_length. }
+      assert (KF : kids_ok (fst (flip st c0 err)) /\ forall c, In (HChild c) (snd (flip st c0 err)) -> c < length (procs st)).
+      { destruct K as [K1 K2]. unfold flip. destruct (p_term (get_proc st c0)); cbn [fst snd]; [split; [split; auto|intros c []]|].
+        split; [split|].
+        - intros t hs' e c It Ifr Ih. cbn [procs upd_proc threads] in *. rewrite set_nth_length. apply (K1 t hs' e c); auto.
+        - intros i c Li Ih. cbn [procs upd_proc] in Li. rewrite set_nth_length in Li. cbn [procs upd_proc]. rewrite set_nth_length.
+          destruct (Nat.eq_dec c0 i) as [<-|N]; [rewrite get_upd_same in Ih by exact Li; cbn in Ih; contradiction|].
+          rewrite get_upd_other in Ih by exact N. apply (K2 i c); auto.
+        - intros c Ih. apply (K2 c0 c); auto. }
+      destruct KF as [KF KT].
+      destruct (flip st c0 err) as [st1 taken] eqn:FL. cbn [fst snd] in *.
+      assert (L1 : tid < length (threads st1)) by (rewrite Th; exact L).
+      assert (G1 : get_thread st1 tid = get_thread st tid) by (unfold get_thread; rewrite Th; reflexivity).
+      apply IH; [rewrite length_threads_upd; exact L1| |].
+      * intros c p Lc Pp. cbn [procs upd_thread] in Lc.
+        change (get_proc (upd_thread st1 tid (mkthread ((rev taken, err) :: (hs, err) :: rest))) c) with (get_proc st1 c) in Pp.
+        destruct (CF c p Lc Pp) as [Lp D]. split; auto.
+        change (get_proc (upd_thread st1 tid (mkthread ((rev taken, err) :: (hs, err) :: rest))) c) with (get_proc st1 c).
+        change (get_proc (upd_thread st1 tid (mkthread ((rev taken, err) :: (hs, err) :: rest))) p) with (get_proc st1 p).
+        destruct D as [D|[D|[D|D]]]; auto.
+        -- destruct (Nat.eq_dec c c0) as [->|N]; [left; exact Tm|].
+           right. right. apply in_frames_upd; auto. intros fr Ifr Ih. rewrite G1, F in Ifr. destruct Ifr as [<-|Ifr].
+           ++ exists (hs, err). split; [right; left; reflexivity|]. cbn in *. destruct Ih as [E|Ih]; [inversion E; congruence|exact Ih].
+           ++ exists fr. split; [right; right; exact Ifr|exact Ih].
+        -- right. right. apply (in_frames_new st1 tid _ _ (rev taken, err)); auto. left. reflexivity. cbn. apply -> in_rev. exact D.
+      * destruct KF as [K1 K2]. split; [|exact K2].
+        intros t hs' e c It Ifr Ih. cbn [procs upd_thread]. rewrite Len. apply in_threads_upd in It. destruct It as [->|It].
+        -- cbn in Ifr. destruct Ifr as [E|[E|Ifr]].
+           ++ inversion E; subst. apply in_rev_elim in Ih. apply KT, Ih.
+           ++ inversion E; subst. destruct K as [Ka _]. apply (Ka (get_thread st tid) (HChild c0 :: hs') e c); auto using get_thread_in. rewrite F. left. reflexivity. right. exact Ih.
+           ++ destruct K as [Ka _]. apply (Ka (get_thread st tid) hs' e c); auto using get_thread_in. rewrite F. right. exact Ifr.
+        -- rewrite <- Len. apply (K1 t hs' e c); auto.
+    + (* HWaitDone *)
+      set (pp := get_proc st par).
+      set (p' := mkproc (p_term pp) (p_err pp) (p_hooks pp) (p_data pp) (p_parent pp) (pred (p_wait pp))).
+      assert (Len : length (procs (upd_proc st par p')) = length (procs st)) by (unfold upd_proc; cbn; apply set_nth_length).
+      assert (C1 : Casc (upd_proc st par p')).
+      { destruct (Nat.lt_ge_cases par (length (procs st))) as [Lp|Lp].
+        - apply Casc_upd; auto.
+        - unfold upd_proc. rewrite set_nth_oob by exact Lp. destruct st; exact H. }
+      assert (K1' : kids_ok (upd_proc st par p')).
+      { destruct K as [K1 K2]. split.
+        - intros t hs' e c It Ifr Ih. rewrite Len. apply (K1 t hs' e c); auto.
+        - intros i c Li Ih. rewrite Len in *. destruct (Nat.eq_dec par i) as [->|N]; [rewrite get_upd_same in Ih by exact Li; apply (K2 i c); auto|].
+          rewrite get_upd_other in Ih by exact N. apply (K2 i c); auto. }
+      apply IH; [rewrite length_threads_upd; exact L| |].
+      * intros c p Lc Pp. destruct (C1 c p Lc Pp) as [Lp D]. split; auto. destruct D as [D|[D|D]]; auto.
+        right. right. apply in_frames_upd; auto. intros fr Ifr Ih.
+        change (get_thread (upd_proc st par p') tid) with (get_thread st tid) in Ifr. rewrite F in Ifr. destruct Ifr as [<-|Ifr].
+        -- exists (hs, err). split; [left; reflexivity|]. cbn in *. destruct Ih as [E|Ih]; [discriminate|exact Ih].
+        -- exists fr. split; [right; exact Ifr|exact Ih].
+      * destruct K1' as [Ka Kb]. split; [|exact Kb].
+        intros t hs' e c It Ifr Ih. apply in_threads_upd in It. destruct It as [->|It]; [|apply (Ka t hs' e c); auto].
+        cbn in Ifr. destruct K as [K1 _]. cbn [procs upd_thread]. rewrite Len. destruct Ifr as [E|Ifr].
+        -- inversion E; subst. apply (K1 (get_thread st tid) (HWaitDone par :: hs') e c); auto using get_thread_in. rewrite F. left. reflexivity. right. exact Ih.
+        -- apply (K1 (get_thread st tid) hs' e c); auto using get_thread_in. rewrite F. right. exact Ifr.
+    + (* HParked *) exact H.
+Qed.
+
+Lemma in_frames_idle st tid h : idle st tid = true -> tid < length (threads st) ->
+  forall fr, In fr (t_frames (get_thread st tid)) -> In h (fst fr) -> False.
+Proof. unfold idle. intros I _ fr Ifr. destruct (t_frames (get_thread st tid)); [contradiction|discriminate]. Qed.
+
+(* push a frame on an idle thread *)
+Lemma Casc_push st tid fr :
+  tid < length (threads st) -> idle st tid = true -> Casc st -> Casc (upd_thread st tid (mkthread [fr])).
+Proof.
+  intros L I H c p Lc Pp. destruct (H c p Lc Pp) as [Lp D]. split; auto. destruct D as [D|[D|D]]; auto.
+  right. right. apply in_frames_upd; auto. intros fr' Ifr Ih. exfalso. eapply in_frames_idle; eauto.
+Qed.
+
+Lemma p_step_casc st op :
+  op_ok st op -> Casc st -> kids_ok st -> Casc (fst (p_step st op)).
+Proof.
+  intros [R Rp] H K. destruct op as [|tid pid|tid pid h|tid pid err|tid|pid k v|pid k]; cbn [p_step]; cbn in R, Rp.
+  - (* PNew *)
+    cbn [fst]. intros c p Lc Pp. cbn [procs] in Lc. rewrite app_length in Lc. cbn in Lc.
+    destruct (Nat.lt_ge_cases c (length (procs st))) as [Hc|Hc].
+    + unfold get_proc in Pp. cbn [procs] in Pp. rewrite app_nth1 in Pp by exact Hc.
+      destruct (H c p Hc Pp) as [Lp D]. cbn [procs]. rewrite app_length. split; [lia|].
+      unfold get_proc. cbn [procs]. rewrite !app_nth1 by assumption. destruct D as [D|[D|D]]; auto.
+    + assert (c = length (procs st)) by lia. subst c. unfold get_proc in Pp. cbn [procs] in Pp.
+      rewrite app_nth2, Nat.sub_diag in Pp by lia. cbn in Pp. discriminate.
+  - (* PFork *)
+    destruct (idle st tid) eqn:I; cbn [negb]; [|exact H].
+    set (p := get_proc st pid).
+    set (p' := mkproc (p_term p) (p_err p) (p_hooks p) (p_data p) (p_parent p) (S (p_wait p))).
+    set (st1 := mkps (set_nth pid p' (procs st) ++ [mkproc false 0 [HWaitDone pid] [] (Some pid) 0]) (threads st) (hlog st)).
+    assert (Len1 : length (procs st1) = S (length (procs st))) by (cbn; rewrite app_length, set_nth_length; cbn; lia).
+    assert (G1 : forall i, i < length (procs st) -> p_hooks (get_proc st1 i) = p_hooks (get_proc st i) /\
+                   p_term (get_proc st1 i) = p_term (get_proc st i) /\ p_parent (get_proc st1 i) = p_parent (get_proc st i)).
+    { intros i Li. unfold get_proc, st1. cbn [procs]. rewrite app_nth1 by (rewrite set_nth_length; exact Li).
+      destruct (Nat.eq_dec pid i) as [->|N]; [rewrite nth_set_nth_same by exact Li; cbn; auto|rewrite nth_set_nth_other by exact N; auto]. }
+    assert (Gc : get_proc st1 (length (procs st)) = mkproc false 0 [HWaitDone pid] [] (Some pid) 0).
+    { unfold get_proc, st1. cbn [procs]. rewrite app_nth2 by (rewrite set_nth_length; lia). rewrite set_nth_length, Nat.sub_diag. reflexivity. }
+    (* st1 satisfies the invariant for every pair but the new child *)
+    assert (C1 : forall c q, c < length (procs st) -> p_parent (get_proc st1 c) = Some q ->
+                 q < length (procs st1) /\ (p_term (get_proc st1 c) = true \/ In (HChild c) (p_hooks (get_proc st1 q)) \/ in_frames st1 (HChild c))).
+    { intros c q Lc Pq. destruct (G1 c Lc) as [_ [Tc Pc]]. rewrite Pc in Pq. destruct (H c q Lc Pq) as [Lq D]. split; [lia|].
+      destruct (G1 q Lq) as [Hq _]. rewrite Tc, Hq. destruct D as [D|[D|D]]; auto. }
+    assert (K1 : kids_ok st1).
+    { destruct K as [Ka Kb]. split.
+      - intros t hs e c It Ifr Ih. rewrite Len1. pose proof (Ka t hs e c It Ifr Ih). lia.
+      - intros i c Li Ih. rewrite Len1 in *. destruct (Nat.lt_ge_cases i (length (procs st))) as [Hi|Hi].
+        + destruct (G1 i Hi) as [Hk _]. rewrite Hk in Ih. pose proof (Kb i c Hi Ih). lia.
+        + assert (i = length (procs st)) by lia. subst i. rewrite Gc in Ih. cbn in Ih. destruct Ih as [E|[]]. discriminate. }
+    destruct (p_term (get_proc st1 pid)) eqn:T.
+    + (* parent terminated: the child is flipped at once *)
+      assert (Lc : length (procs st) < length (procs st1)) by lia.
+      pose proof (flip_tok st1 (length (procs st)) (p_err (get_proc st1 pid)) 0) as [_ [Th _]].
+      assert (FS : fst (flip st1 (length (procs st)) (p_err (get_proc st1 pid))) =
+                   upd_proc st1 (length (procs st)) (mkproc true (p_err (get_proc st1 pid)) [] [] (Some pid) 0) /\
+                   snd (flip st1 (length (procs st)) (p_err (get_proc st1 pid))) = [HWaitDone pid]).
+      { unfold flip. rewrite Gc. cbn. auto. }
+      destruct FS as [F1 F2].
+      destruct (flip st1 (length (procs st)) (p_err (get_proc st1 pid))) as [st2 taken] eqn:FL. cbn [fst snd] in *. subst st2 taken.
+      set (st2 := upd_proc st1 (length (procs st)) (mkproc true (p_err (get_proc st1 pid)) [] [] (Some pid) 0)) in *.
+      assert (Len2 : length (procs st2) = length (procs st1)) by (unfold st2, upd_proc; cbn [procs]; apply set_nth_length).
+      assert (C2 : Casc st2).
+      { intros c q Lc2 Pq. rewrite Len2, Len1 in Lc2. destruct (Nat.lt_ge_cases c (length (procs st))) as [Hc|Hc].
+        - assert (Nc : length (procs st) <> c) by lia.
+          unfold st2 in Pq. rewrite get_upd_other in Pq by exact Nc. destruct (C1 c q Hc Pq) as [Lq D]. rewrite Len2. split; auto.
+          unfold st2. rewrite get_upd_other by exact Nc.
+          destruct D as [D|[D|D]]; auto.
+          right. left. destruct (Nat.eq_dec (length (procs st)) q) as [<-|Nq]; [rewrite Gc in D; cbn in D; destruct D as [E|[]]; discriminate|].
+          rewrite get_upd_other by exact Nq. exact D.
+        - assert (c = length (procs st)) by lia. subst c. unfold st2 in Pq. rewrite get_upd_same in Pq by exact Lc. cbn in Pq. inversion Pq; subst q.
+          rewrite Len2. split; [lia|]. left. unfold st2. rewrite get_upd_same by exact Lc. reflexivity. }
+      assert (K2 : kids_ok st2).
+      { destruct K1 as [Ka Kb]. split.
+        - intros t hs e c It Ifr Ih. rewrite Len2. apply (Ka t hs e c); auto.
+        - intros i c Li Ih. rewrite Len2 in *. destruct (Nat.eq_dec (length (procs st)) i) as [<-|N].
+          + unfold st2 in Ih. rewrite get_upd_same in Ih by exact Lc. cbn in Ih. contradiction.
+          + unfold st2 in Ih. rewrite get_upd_other in Ih by exact N. apply (Kb i c); auto. }
+      assert (I2 : idle st2 tid = true) by exact I.
+      assert (L2 : tid < length (threads st2)) by exact R.
+      apply advance_casc; [rewrite length_threads_upd; exact L2|apply Casc_push; auto|].
+      destruct K2 as [Ka Kb]. split; [|exact Kb].
+      intros t hs e c It Ifr Ih. apply in_threads_upd in It. destruct It as [->|It]; [|apply (Ka t hs e c); auto].
+      cbn in Ifr. destruct Ifr as [E|[]]. inversion E; subst. cbn in Ih. destruct Ih as [E'|[]]. discriminate.
+    + cbn [fst]. set (p1 := get_proc st1 pid).
+      assert (Lp1 : pid < length (procs st1)) by lia.
+      set (p2 := mkproc false (p_err p1) (p_hooks p1 ++ [HChild (length (procs st))]) (p_data p1) (p_parent p1) (p_wait p1)).
+      assert (Len2 : length (procs (upd_proc st1 pid p2)) = length (procs st1)) by (unfold upd_proc; cbn [procs]; apply set_nth_length).
+      intros c q Lc Pq. rewrite Len2, Len1 in Lc. rewrite Len2.
+      destruct (Nat.lt_ge_cases c (length (procs st))) as [Hc|Hc].
+      * assert (Pq1 : p_parent (get_proc st1 c) = Some q).
+        { destruct (Nat.eq_dec pid c) as [<-|N]; [rewrite get_upd_same in Pq by exact Lp1; exact Pq|rewrite get_upd_other in Pq by exact N; exact Pq]. }
+        destruct (C1 c q Hc Pq1) as [Lq D]. split; auto.
+        destruct D as [D|[D|D]].
+        -- left. destruct (Nat.eq_dec pid c) as [<-|N]; [rewrite get_upd_same by exact Lp1; cbn; unfold p1 in *; congruence|rewrite get_upd_other by exact N; exact D].
+        -- right. left. destruct (Nat.eq_dec pid q) as [<-|N]; [rewrite get_upd_same by exact Lp1; cbn; apply in_or_app; left; exact D|rewrite get_upd_other by exact N; exact D].
+        -- right. right. eapply in_frames_procs; [|exact D]. reflexivity.
+      * assert (c = length (procs st)) by lia. subst c.
+        assert (Nc : pid <> length (procs st)) by lia.
+        rewrite get_upd_other in Pq by exact Nc. rewrite Gc in Pq. cbn in Pq. inversion Pq; subst q.
+        split; [exact Lp1|]. right. left. rewrite get_upd_same by exact Lp1. cbn. apply in_or_app. right. left. reflexivity.
+  - (* PAddHook *)
+    destruct (idle st tid) eqn:I; cbn [negb]; [|exact H].
+    destruct (p_term (get_proc st pid)) eqn:T; cbn [fst].
+    + apply advance_casc; [rewrite length_threads_upd; exact R|apply Casc_push; auto|].
+      destruct K as [Ka Kb]. split; [|exact Kb].
+      intros t hs e c It Ifr Ih. apply in_threads_upd in It. destruct It as [->|It]; [|apply (Ka t hs e c); auto].
+      cbn in Ifr. destruct Ifr as [E|[]]. inversion E; subst. cbn in Ih. destruct Ih as [E'|[]]. discriminate.
+    + destruct (existsb (hook_eqb (HUser h)) (p_hooks (get_proc st pid))); cbn [fst]; [exact H|].
+      apply Casc_upd; [exact Rp|reflexivity|intros T'; congruence|intros c Ic; cbn; apply in_or_app; left; exact Ic|exact H].
+  - (* PExit *)
+    destruct (idle st tid) eqn:I; cbn [negb]; [|exact H].
+    pose proof (Casc_flip st pid err Rp H) as CF.
+    pose proof (flip_tok st pid err 0) as [_ [Th _]].
+    assert (Len : length (procs (fst (flip st pid err))) = length (procs st)).
+    { unfold flip. destruct (p_term (get_proc st pid)); cbn [fst]; auto. unfold upd_proc. cbn. apply set_nth_length. }
+    assert (KF : kids_ok (fst (flip st pid err)) /\ forall c, In (HChild c) (snd (flip st pid err)) -> c < length (procs st)).
+    { destruct K as [K1 K2]. unfold flip. destruct (p_term (get_proc st pid)); cbn [fst snd]; [split; [split; auto|intros c []]|].
+      split; [split|].
+      - intros t hs' e c It Ifr Ih. cbn [procs upd_proc threads] in *. rewrite set_nth_length. apply (K1 t hs' e c); auto.
+      - intros i c Li Ih. cbn [procs upd_proc] in Li. rewrite set_nth_length in Li. cbn [procs upd_proc]. rewrite set_nth_length.
+        destruct (Nat.eq_dec pid i) as [<-|N]; [rewrite get_upd_same in Ih by exact Li; cbn in Ih; contradiction|].
+        rewrite get_upd_other in Ih by exact N. apply (K2 i c); auto.
+      - intros c Ih. apply (K2 pid c); auto. }
+    destruct KF as [KF KT].
+    destruct (flip st pid err) as [st1 taken] eqn:FL. cbn [fst snd] in *.
+    assert (L1 : tid < length (threads st1)) by (rewrite Th; exact R).
+    assert (I1 : idle st1 tid = true) by (unfold idle, get_thread in *; rewrite Th; exact I).
+    apply advance_casc; [rewrite length_threads_upd; exact L1| |].
+    + intros c p Lc Pp. cbn [procs upd_thread] in Lc.
+      change (get_proc (upd_thread st1 tid (mkthread [(rev taken, err)])) c) with (get_proc st1 c) in Pp.
+      destruct (CF c p Lc Pp) as [Lp D]. split; auto.
+      change (get_proc (upd_thread st1 tid (mkthread [(rev taken, err)])) c) with (get_proc st1 c).
+      change (get_proc (upd_thread st1 tid (mkthread [(rev taken, err)])) p) with (get_proc st1 p).
+      destruct D as [D|[D|[D|D]]]; auto.
+      * right. right. apply in_frames_upd; auto. intros fr Ifr Ih. exfalso. eapply in_frames_idle; eauto.
+      * right. right. apply (in_frames_new st1 tid _ _ (rev taken, err)); auto. left. reflexivity. cbn. apply -> in_rev. exact D.
+    + destruct KF as [Ka Kb]. split; [|exact Kb].
+      intros t hs e c It Ifr Ih. apply in_threads_upd in It. destruct It as [->|It]; [|apply (Ka t hs e c); auto].
+      cbn in Ifr. destruct Ifr as [E|[]]. inversion E; subst. cbn [procs upd_thread]. rewrite Len. apply in_rev_elim in Ih. apply KT, Ih.
+  - (* PStep *)
+    destruct (t_frames (get_thread st tid)) as [|[[|[x|c0|par|x] hs] err] rest] eqn:F; cbn [fst]; auto.
+    apply advance_casc; [rewrite length_threads_upd; exact R| |].
+    + intros c p Lc Pp. destruct (H c p Lc Pp) as [Lp D]. split; auto. destruct D as [D|[D|D]]; auto.
+      right. right. apply in_frames_upd; auto. intros fr Ifr Ih. rewrite F in Ifr. destruct Ifr as [<-|Ifr].
+      * exists (hs, err). split; [left; reflexivity|]. cbn in *. destruct Ih as [E|Ih]; [discriminate|exact Ih].
+      * exists fr. split; [right; exact Ifr|exact Ih].
+    + destruct K as [K1 K2]. split; [|exact K2].
+      intros t hs' e c It Ifr Ih. apply in_threads_upd in It. destruct It as [->|It]; [|apply (K1 t hs' e c); auto].
+      cbn in Ifr. destruct Ifr as [E|Ifr].
+      * inversion E; subst. apply (K1 (get_thread st tid) (HParked x :: hs') e c); auto using get_thread_in. rewrite F. left. reflexivity. right. exact Ih.
+      * apply (K1 (get_thread st tid) hs' e c); auto using get_thread_in. rewrite F. right. exact Ifr.
+  - (* PSet *) cbn [fst]. apply Casc_upd; auto.
+  - (* PRemove *) cbn [fst]. apply Casc_upd; auto.
+Qed.
+
+Lemma run_casc_from st ops :
+  ok_from st ops -> Casc st -> kids_ok st -> Own [] st ->
+  Casc (fold_left (fun st op => fst (p_step st op)) ops st).
+Proof.
+  assert (G : forall A st, ok_from st ops -> Casc st -> kids_ok st -> Own A st ->
+              Casc (fold_left (fun st op => fst (p_step st op)) ops st)).
+  { induction ops as [|op ops IH]; intros A st0 OK C K O; cbn [fold_left]; [exact C|].
+    destruct OK as [OKop OKr]. destruct (p_step_own A st0 op OKop O K) as [O' K'].
+    apply (IH (A ++ effect st0 op)); auto. apply p_step_casc; auto. }
+  intros OK C K O. apply (G [] st); auto.
+Qed.
+
+(* exit cascades: once no thread has anything left to run, every child forked from a terminated process
+   is terminated (and so, level by level, every descendant) *)
+Theorem cascade n ops :
+  ok_from (p_init n) ops ->
+  let st := p_run n ops in
+  (forall t, In t (threads st) -> t_frames t = []) ->
+  forall c p, c < length (procs st) -> p_parent (get_proc st c) = Some p ->
+    p_term (get_proc st p) = true -> p_term (get_proc st c) = true.
+Proof.
+  intros OK st Done c p Lc Pp Tp.
+  assert (C : Casc st).
+  { unfold st, p_run. apply run_casc_from; auto.
+    - intros c' p' Lc'. cbn in Lc'. lia.
+    - split; cbn; [intros t hs e c' It; apply repeat_spec in It; subst t; contradiction|intros i c' Li; lia].
+    - split; [|split]; cbn; [intros i h Li; lia|intros t hs e h It; apply repeat_spec in It; subst t; contradiction|intros h e []]. }
+  destruct (C c p Lc Pp) as [Lp [D|[D|D]]]; auto.
+  - pose proof (p_run_nohooks n ops) as NH. fold st in NH. rewrite (nohooks_get st p NH Tp) in D. contradiction.
+  - destruct D as [j [fr [Lj [Ifr _]]]]. rewrite (Done (get_thread st j)) in Ifr by (apply get_thread_in; exact Lj). contradiction.
+Qed.
+
+(* ---------- Join: the WaitGroup counter counts the children that have not terminated ---------- *)
+Definition cntw (p : nat) (l : list hook) : nat := length (filter (is_wait p) l).
+Definition wreg (st : pstate) (p : nat) : nat := list_sum (map (fun q => cntw p (p_hooks q)) (procs st)).
+Definition wfcnt (p : nat) (t : thread) : nat := list_sum (map (fun f => cntw p (fst f)) (t_frames t)).
+Definition wfr (st : pstate) (p : nat) : nat := list_sum (map (wfcnt p) (threads st)).
+
+Lemma cntw_app p a b : cntw p (a ++ b) = cntw p a + cntw p b.
+Proof. unfold cntw. rewrite filter_app, app_length. reflexivity. Qed.
+Lemma cntw_rev p l : cntw p (rev l) = cntw p l.
+Proof.
+  induction l as [|a l IH]; [reflexivity|].
+  change (rev (a :: l)) with (rev l ++ [a]). rewrite cntw_app, IH. unfold cntw. cbn. destruct (is_wait p a); cbn; lia.
+Qed.
+
+Lemma wfr_upd_thread st tid t p :
+  tid < length (threads st) ->
+  wfr (upd_thread st tid t) p + wfcnt p (get_thread st tid) = wfr st p + wfcnt p t.
+Proof. intros H. unfold wfr, upd_thread, get_thread. cbn [threads]. apply list_sum_set_nth, H. Qed.
+
+Lemma wreg_upd_proc st q x p :
+  q < length (procs st) ->
+  wreg (upd_proc st q x) p + cntw p (p_hooks (get_proc st q)) = wreg st p + cntw p (p_hooks x).
+Proof.
+  intros H. unfold wreg, upd_proc, get_proc. cbn [procs].
+  apply (list_sum_set_nth (fun q => cntw p (p_hooks q))), H.
+Qed.
+
+(* the counter of p equals the number of WaitDone(p) hooks still in the system; every WaitDone names an existing process *)
+Definition WInv (st : pstate) : Prop :=
+  (forall p, p < length (procs st) -> p_wait (get_proc st p) = wreg st p + wfr st p) /\
+  (forall q par, q < length (procs st) -> In (HWaitDone par) (p_hooks (get_proc st q)) -> par < length (procs st)) /\
+  (forall j fr par, j < length (threads st) -> In fr (t_frames (get_thread st j)) -> In (HWaitDone par) (fst fr) -> par < length (procs st)).
+
+Lemma cntw_pos p l : In (HWaitDone p) l -> 1 <= cntw p l.
+Proof.
+  unfold cntw. induction l as [|a l IH]; cbn; intros I; [contradiction|].
+  destruct I as [->|I]; [cbn; rewrite Nat.eqb_refl; cbn; lia|].
+  specialize (IH I). destruct (is_wait p a); cbn; lia.
+Qed.
+
+Lemma flip_w st q err p :
+  wreg (fst (flip st q err)) p + cntw p (snd (flip st q err)) = wreg st p /\
+  length (procs (fst (flip st q err))) = length (procs st) /\
+  (forall i, p_wait (get_proc (fst (flip st q err)) i) = p_wait (get_proc st i)) /\
+  (forall i h, i < length (procs st) -> In h (p_hooks (get_proc (fst (flip st q err)) i)) -> In h (p_hooks (get_proc st i))) /\
+  (forall h, In h (snd (flip st q err)) -> q < length (procs st) /\ In h (p_hooks (get_proc st q))).
+Proof.
+  unfold flip. destruct (p_term (get_proc st q)) eqn:T; cbn [fst snd].
+  - split; [change (cntw p []) with 0; lia|]. split; [reflexivity|]. split; [reflexivity|]. split; [auto|intros h []].
+  - destruct (Nat.lt_ge_cases q (length (procs st))) as [H|H].
+    2:{ unfold get_proc in T. rewrite nth_overflow in T by exact H. discriminate. }
+    set (q' := mkproc true err [] [] (p_parent (get_proc st q)) (p_wait (get_proc st q))).
+    split; [|split; [|split; [|split]]].
+    + pose proof (wreg_upd_proc st q q' p H) as X. cbn [p_hooks q'] in X. change (cntw p []) with 0 in X. lia.
+    + unfold upd_proc. cbn. apply set_nth_length.
+    + intros i. destruct (Nat.eq_dec q i) as [->|N]; [rewrite get_upd_same by exact H; reflexivity|rewrite get_upd_other by exact N; reflexivity].
+    + intros i h Li. destruct (Nat.eq_dec q i) as [->|N]; [rewrite get_upd_same by exact Li; cbn; contradiction|rewrite get_upd_other by exact N; auto].
+    + intros h Ih. auto.
+Qed.
+
+Lemma wreg_same_hooks st q x p : p_hooks x = p_hooks (get_proc st q) -> wreg (upd_proc st q x) p = wreg st p.
+Proof.
+  intros E. destruct (Nat.lt_ge_cases q (length (procs st))) as [H|H].
+  - pose proof (wreg_upd_proc st q x p H). rewrite E in *. lia.
+  - unfold upd_proc, wreg. cbn [procs]. rewrite set_nth_oob by exact H. reflexivity.
+Qed.
+
+Lemma advance_winv fuel : forall st tid,
+  tid < length (threads st) -> WInv st -> WInv (advance fuel st tid).
+Proof.
+  induction fuel as [|fuel IH]; intros st tid L W; cbn [advance]; [exact W|].
+  destruct (t_frames (get_thread st tid)) as [|[[|h hs] err] rest] eqn:F; [exact W| |].
+  - (* empty frame *)
+    apply IH; [rewrite length_threads_upd; exact L|].
+    destruct W as [W1 [W2 W3]]. split; [|split; [exact W2|]].
+    + intros p Lp. change (get_proc (upd_thread st tid (mkthread rest)) p) with (get_proc st p).
+      change (wreg (upd_thread st tid (mkthread rest)) p) with (wreg st p).
+      pose proof (wfr_upd_thread st tid (mkthread rest) p L) as U. unfold wfcnt in U. rewrite F in U.
+      cbn [t_frames map list_sum fold_right fst] in U. change (cntw p []) with 0 in U. rewrite (W1 p Lp). lia.
+    + intros j fr par Lj Ifr Ih. rewrite length_threads_upd in Lj. destruct (Nat.eq_dec j tid) as [->|N].
+      * rewrite get_thread_upd_same in Ifr by exact L. cbn in Ifr. apply (W3 tid fr par); auto. rewrite F. right. exact Ifr.
+      * rewrite get_thread_upd_other in Ifr by exact N. apply (W3 j fr par); auto.
+  - destruct h as [x|c0|par|x].
+    + (* entered *)
+      destruct W as [W1 [W2 W3]].
+      set (st' := mkps (procs st) (set_nth tid (mkthread ((HParked x :: hs, err) :: rest)) (threads st)) (hlog st ++ [(x, err)])).
+      split; [|split; [exact W2|]].
+      * intros p Lp. change (get_proc st' p) with (get_proc st p). change (wreg st' p) with (wreg st p).
+        assert (U : wfr st' p + wfcnt p (get_thread st tid) = wfr st p + wfcnt p (mkthread ((HParked x :: hs, err) :: rest))).
+        { apply (wfr_upd_thread st tid _ p L). }
+        unfold wfcnt in U. rewrite F in U. cbn [t_frames map list_sum fold_right fst] in U.
+        change (cntw p (HUser x :: hs)) with (cntw p hs) in U. change (cntw p (HParked x :: hs)) with (cntw p hs) in U.
+        rewrite (W1 p Lp). lia.
+      * intros j fr par Lj Ifr Ih. unfold st' in Lj. cbn [threads] in Lj. rewrite set_nth_length in Lj.
+        change (get_thread st' j) with (get_thread (upd_thread st tid (mkthread ((HParked x :: hs, err) :: rest))) j) in Ifr.
+        destruct (Nat.eq_dec j tid) as [->|N].
+        -- rewrite get_thread_upd_same in Ifr by exact L. cbn in Ifr. destruct Ifr as [<-|Ifr].
+           ++ cbn in Ih. destruct Ih as [E|Ih]; [discriminate|]. apply (W3 tid (HUser x :: hs, err) par); auto. rewrite F. left. reflexivity. right. exact Ih.
+           ++ apply (W3 tid fr par); auto. rewrite F. right. exact Ifr.
+        -- rewrite get_thread_upd_other in Ifr by exact N. apply (W3 j fr par); auto.
+    + (* HChild *)
+      destruct W as [W1 [W2 W3]].
+      pose proof (flip_tok st c0 err 0) as [_ [Th _]].
+      assert (FW : forall p, wreg (fst (flip st c0 err)) p + cntw p (snd (flip st c0 err)) = wreg st p) by (intros p; apply flip_w).
+      destruct (flip_w st c0 err 0) as [_ [Len [Wt [Hk Tk]]]].
+      destruct (flip st c0 err) as [st1 taken] eqn:FL. cbn [fst snd] in *.
+      assert (L1 : tid < length (threads st1)) by (rewrite Th; exact L).
+      assert (G1 : get_thread st1 tid = get_thread st tid) by (unfold get_thread; rewrite Th; reflexivity).
+      apply IH; [rewrite length_threads_upd; exact L1|].
+      split; [|split].
+      * intros p Lp. cbn [procs upd_thread] in Lp. rewrite Len in Lp.
+        change (get_proc (upd_thread st1 tid (mkthread ((rev taken, err) :: (hs, err) :: rest))) p) with (get_proc st1 p).
+        change (wreg (upd_thread st1 tid (mkthread ((rev taken, err) :: (hs, err) :: rest))) p) with (wreg st1 p).
+        pose proof (wfr_upd_thread st1 tid (mkthread ((rev taken, err) :: (hs, err) :: rest)) p L1) as U.
+        unfold wfcnt in U. rewrite G1, F in U. cbn [t_frames map list_sum fold_right fst] in U. rewrite cntw_rev in U.
+        change (cntw p (HChild c0 :: hs)) with (cntw p hs) in U.
+        assert (Us : wfr st1 p = wfr st p) by (unfold wfr; rewrite Th; reflexivity).
+        rewrite Wt, (W1 p Lp). pose proof (FW p). lia.
+      * intros q par Lq Ih. cbn [procs upd_thread] in *. rewrite Len in *.
+        change (get_proc (upd_thread st1 tid (mkthread ((rev taken, err) :: (hs, err) :: rest))) q) with (get_proc st1 q) in Ih.
+        apply (W2 q par); auto.
+      * intros j fr par Lj Ifr Ih. rewrite length_threads_upd, Th in Lj. cbn [procs upd_thread]. rewrite Len.
+        destruct (Nat.eq_dec j tid) as [->|N].
+        -- rewrite get_thread_upd_same in Ifr by exact L1. cbn in Ifr. destruct Ifr as [<-|[<-|Ifr]].
+           ++ cbn in Ih. apply in_rev_elim in Ih. destruct (Tk _ Ih) as [Lc Ic]. apply (W2 c0 par); auto.
+           ++ apply (W3 tid (HChild c0 :: hs, err) par); auto. rewrite F. left. reflexivity. right. exact Ih.
+           ++ apply (W3 tid fr par); auto. rewrite F. right. exact Ifr.
+        -- rewrite get_thread_upd_other in Ifr by exact N. unfold get_thread in Ifr. rewrite Th in Ifr. apply (W3 j fr par); auto.
+    + (* HWaitDone par: the counter goes down with the token *)
+      destruct W as [W1 [W2 W3]].
+      assert (Lpar : par < length (procs st)).
+      { apply (W3 tid (HWaitDone par :: hs, err) par); auto. rewrite F. left. reflexivity. left. reflexivity. }
+      set (pp := get_proc st par).
+      set (p' := mkproc (p_term pp) (p_err pp) (p_hooks pp) (p_data pp) (p_parent pp) (pred (p_wait pp))).
+      assert (Len : length (procs (upd_proc st par p')) = length (procs st)) by (unfold upd_proc; cbn; apply set_nth_length).
+      apply IH; [rewrite length_threads_upd; exact L|].
+      split; [|split].
+      * intros p Lp. cbn [procs upd_thread] in Lp. rewrite Len in Lp.
+        change (get_proc (upd_thread (upd_proc st par p') tid (mkthread ((hs, err) :: rest))) p) with (get_proc (upd_proc st par p') p).
+        change (wreg (upd_thread (upd_proc st par p') tid (mkthread ((hs, err) :: rest))) p) with (wreg (upd_proc st par p') p).
+        rewrite (wreg_same_hooks st par p' p eq_refl).
+        pose proof (wfr_upd_thread (upd_proc st par p') tid (mkthread ((hs, err) :: rest)) p L) as U.
+        change (get_thread (upd_proc st par p') tid) with (get_thread st tid) in U.
+        change (wfr (upd_proc st par p') p) with (wfr st p) in U.
+        unfold wfcnt in U. rewrite F in U. cbn [t_frames map list_sum fold_right fst] in U.
+        pose proof (W1 p Lp) as Wp.
+        destruct (Nat.eq_dec par p) as [->|N].
+        -- rewrite get_upd_same by exact Lp. cbn [p_wait p'].
+           assert (C : cntw p (HWaitDone p :: hs) = S (cntw p hs)) by (unfold cntw; cbn; rewrite Nat.eqb_refl; reflexivity).
+           rewrite C in U. fold pp in Wp. unfold pp in *. lia.
+        -- rewrite get_upd_other by exact N.
+           assert (C : cntw p (HWaitDone par :: hs) = cntw p hs).
+           { unfold cntw. cbn. destruct (Nat.eqb par p) eqn:E; [apply Nat.eqb_eq in E; congruence|reflexivity]. }
+           rewrite C in U. lia.
+      * intros q par' Lq Ih. cbn [procs upd_thread] in *. rewrite Len in *.
+        change (get_proc (upd_thread (upd_proc st par p') tid (mkthread ((hs, err) :: rest))) q) with (get_proc (upd_proc st par p') q) in Ih.
+        destruct (Nat.eq_dec par q) as [->|N]; [rewrite get_upd_same in Ih by exact Lq; apply (W2 q par'); auto|].
+        rewrite get_upd_other in Ih by exact N. apply (W2 q par'); auto.
+      * intros j fr par' Lj Ifr Ih. rewrite length_threads_upd in Lj. cbn [procs upd_thread]. rewrite Len.
+        destruct (Nat.eq_dec j tid) as [->|N].
+        -- rewrite get_thread_upd_same in Ifr by exact L. cbn in Ifr. destruct Ifr as [<-|Ifr].
+           ++ apply (W3 tid (HWaitDone par :: hs, err) par'); auto. rewrite F. left. reflexivity. right. exact Ih.
+           ++ apply (W3 tid fr par'); auto. rewrite F. right. exact Ifr.
+        -- rewrite get_thread_upd_other in Ifr by exact N. apply (W3 j fr par'); auto.
+    + (* HParked *) exact W.
+Qed.
+
+Definition parent_is (q : proc) (p : nat) : bool := match p_parent q with Some x => Nat.eqb x p | None => false end.
+(* a running process carries exactly one WaitDone hook, for its parent *)
+Definition TokInv (st : pstate) : Prop :=
+  forall q p, q < length (procs st) -> p_term (get_proc st q) = false ->
+    cntw p (p_hooks (get_proc st q)) = if parent_is (get_proc st q) p then 1 else 0.
+
+Lemma TokInv_upd st i x :
+  i < length (procs st) ->
+  (p_term x = false -> p_term (get_proc st i) = false /\ p_parent x = p_parent (get_proc st i) /\
+                       forall p, cntw p (p_hooks x) = cntw p (p_hooks (get_proc st i))) ->
+  TokInv st -> TokInv (upd_proc st i x).
+Proof.
+  intros Li Hx H q p Lq T. assert (Len : length (procs (upd_proc st i x)) = length (procs st)) by (unfold upd_proc; cbn; apply set_nth_length).
+  rewrite Len in Lq. destruct (Nat.eq_dec i q) as [->|N].
+  - rewrite get_upd_same in * by exact Lq. destruct (Hx T) as [T0 [P0 C0]]. rewrite C0. unfold parent_is. rewrite P0. apply (H q p Lq T0).
+  - rewrite get_upd_other in * by exact N. apply H; auto.
+Qed.
+
+Lemma flip_tokinv st q err : TokInv st -> TokInv (fst (flip st q err)).
+Proof.
+  intros H. unfold flip. destruct (p_term (get_proc st q)) eqn:T; cbn [fst]; [exact H|].
+  destruct (Nat.lt_ge_cases q (length (procs st))) as [Lq|Lq].
+  - apply TokInv_upd; auto. cbn. discriminate.
+  - unfold upd_proc. rewrite set_nth_oob by exact Lq. destruct st; exact H.
+Qed.
+
+Lemma TokInv_threads st st' : procs st' = procs st -> TokInv st -> TokInv st'.
+Proof. intros E H q p. unfold get_proc. rewrite E. apply H. Qed.
+
+Lemma advance_tokinv fuel : forall st tid, TokInv st -> TokInv (advance fuel st tid).
+Proof.
+  induction fuel as [|fuel IH]; intros st tid H; cbn [advance]; [exact H|].
+  destruct (t_frames (get_thread st tid)) as [|[[|h hs] err] rest]; [exact H| |].
+  - apply IH. exact H.
+  - destruct h as [x|c0|par|x]; [exact H| | |exact H].
+    + pose proof (flip_tokinv st c0 err H) as F. destruct (flip st c0 err) as [st1 taken]. cbn [fst] in F. apply IH. exact F.
+    + apply IH.
+      set (pp := get_proc st par).
+      set (p' := mkproc (p_term pp) (p_err pp) (p_hooks pp) (p_data pp) (p_parent pp) (pred (p_wait pp))).
+      apply (TokInv_threads (upd_proc st par p')); [reflexivity|].
+      destruct (Nat.lt_ge_cases par (length (procs st))) as [Lp|Lp].
+      * apply TokInv_upd; auto.
+      * unfold upd_proc. rewrite set_nth_oob by exact Lp. destruct st; exact H.
+Qed.
+
+Lemma cntw_single p par : cntw p [HWaitDone par] = if Nat.eqb par p then 1 else 0.
+Proof. unfold cntw. cbn. destruct (Nat.eqb par p); reflexivity. Qed.
+
+Lemma p_step_tokinv st op : op_ok st op -> TokInv st -> TokInv (fst (p_step st op)).
+Proof.
+  intros [R Rp] H. destruct op as [|tid pid|tid pid h|tid pid err|tid|pid k v|pid k]; cbn [p_step]; cbn in R, Rp.
+  - cbn [fst]. intros q p Lq T. cbn [procs] in Lq. rewrite app_length in Lq. cbn in Lq.
+    destruct (Nat.lt_ge_cases q (length (procs st))) as [Hq|Hq].
+    + unfold get_proc in *. cbn [procs] in *. rewrite app_nth1 in * by exact Hq. apply H; auto.
+    + assert (q = length (procs st)) by lia. subst q. unfold get_proc. cbn [procs]. rewrite app_nth2, Nat.sub_diag by lia. reflexivity.
+  - destruct (idle st tid); cbn [negb]; [|exact H].
+    set (p0 := get_proc st pid).
+    set (p' := mkproc (p_term p0) (p_err p0) (p_hooks p0) (p_data p0) (p_parent p0) (S (p_wait p0))).
+    set (st1 := mkps (set_nth pid p' (procs st) ++ [mkproc false 0 [HWaitDone pid] [] (Some pid) 0]) (threads st) (hlog st)).
+    assert (T1 : TokInv st1).
+    { intros q p Lq T. cbn [procs st1] in Lq. rewrite app_length, set_nth_length in Lq. cbn in Lq.
+      destruct (Nat.lt_ge_cases q (length (procs st))) as [Hq|Hq].
+      - assert (G : get_proc st1 q = get_proc (upd_proc st pid p') q).
+        { unfold get_proc, st1, upd_proc. cbn [procs]. rewrite app_nth1 by (rewrite set_nth_length; exact Hq). reflexivity. }
+        rewrite G in *. apply (TokInv_upd st pid p'); auto. cbn. auto. unfold upd_proc. cbn. rewrite set_nth_length. exact Hq.
+      - assert (q = length (procs st)) by lia. subst q.
+        assert (G : get_proc st1 (length (procs st)) = mkproc false 0 [HWaitDone pid] [] (Some pid) 0).
+        { unfold get_proc, st1. cbn [procs]. rewrite app_nth2 by (rewrite set_nth_length; lia). rewrite set_nth_length, Nat.sub_diag. reflexivity. }
+        rewrite G. cbn [p_hooks]. rewrite cntw_single. unfold parent_is. cbn. reflexivity. }
+    destruct (p_term (get_proc st1 pid)) eqn:T.
+    + pose proof (flip_tokinv st1 (length (procs st)) (p_err (get_proc st1 pid)) T1) as F.
+      destruct (flip st1 (length (procs st)) (p_err (get_proc st1 pid))) as [st2 taken]. cbn [fst] in *.
+      apply advance_tokinv. apply (TokInv_threads st2); [reflexivity|exact F].
+    + cbn [fst]. assert (Lp1 : pid < length (procs st1)) by (cbn; rewrite app_length, set_nth_length; cbn; lia).
+      apply TokInv_upd; auto. cbn [p_term p_parent p_hooks]. intros _. split; [exact T|]. split; [reflexivity|].
+      intros p. rewrite cntw_app. change (cntw p [HChild (length (procs st))]) with 0. lia.
+  - destruct (idle st tid); cbn [negb]; [|exact H].
+    destruct (p_term (get_proc st pid)) eqn:T; cbn [fst].
+    + apply advance_tokinv. apply (TokInv_threads st); [reflexivity|exact H].
+    + destruct (existsb (hook_eqb (HUser h)) (p_hooks (get_proc st pid))); cbn [fst]; [exact H|].
+      apply TokInv_upd; auto. cbn [p_term p_parent p_hooks]. intros _. split; [exact T|]. split; [reflexivity|].
+      intros p. rewrite cntw_app. change (cntw p [HUser h]) with 0. lia.
+  - destruct (idle st tid); cbn [negb]; [|exact H].
+    pose proof (flip_tokinv st pid err H) as F. destruct (flip st pid err) as [st1 taken]. cbn [fst] in *.
+    apply advance_tokinv. apply (TokInv_threads st1); [reflexivity|exact F].
+  - destruct (t_frames (get_thread st tid)) as [|[[|[x|c0|par|x] hs] err] rest]; cbn [fst]; auto.
+    apply advance_tokinv. apply (TokInv_threads st); [reflexivity|exact H].
+  - cbn [fst]. apply TokInv_upd; auto.
+  - cbn [fst]. apply TokInv_upd; auto.
+Qed.
+
+Lemma wreg_app st ps p :
+  wreg (mkps (procs st ++ ps) (threads st) (hlog st)) p = wreg st p + list_sum (map (fun q => cntw p (p_hooks q)) ps).
+Proof. unfold wreg. cbn [procs]. rewrite map_app. unfold list_sum. rewrite fold_right_app.
+  induction (map (fun q => cntw p (p_hooks q)) (procs st)) as [|a l IH]; cbn; [reflexivity|]. rewrite IH. lia.
+Qed.
+
+Lemma idle_wfcnt st tid p : idle st tid = true -> wfcnt p (get_thread st tid) = 0.
+Proof. unfold idle, wfcnt. destruct (t_frames (get_thread st tid)); [reflexivity|discriminate]. Qed.
+
+(* push a frame on an idle thread *)
+Lemma WInv_push st tid fr e :
+  tid < length (threads st) -> idle st tid = true ->
+  (forall p, p < length (procs st) -> p_wait (get_proc st p) = wreg st p + wfr st p + cntw p fr) ->
+  (forall q par, q < length (procs st) -> In (HWaitDone par) (p_hooks (get_proc st q)) -> par < length (procs st)) ->
+  (forall j fr par, j < length (threads st) -> In fr (t_frames (get_thread st j)) -> In (HWaitDone par) (fst fr) -> par < length (procs st)) ->
+  (forall par, In (HWaitDone par) fr -> par < length (procs st)) ->
+  WInv (upd_thread st tid (mkthread [(fr, e)])).
+Proof.
+  intros L I W1 W2 W3 Wf. split; [|split; [exact W2|]].
+  - intros p Lp. change (get_proc (upd_thread st tid (mkthread [(fr, e)])) p) with (get_proc st p).
+    change (wreg (upd_thread st tid (mkthread [(fr, e)])) p) with (wreg st p).
+    pose proof (wfr_upd_thread st tid (mkthread [(fr, e)]) p L) as U. rewrite (idle_wfcnt st tid p I) in U.
+    unfold wfcnt in U. cbn [t_frames map list_sum fold_right fst] in U. rewrite (W1 p Lp). lia.
+  - intros j fr' par Lj Ifr Ih. rewrite length_threads_upd in Lj. destruct (Nat.eq_dec j tid) as [->|N].
+    + rewrite get_thread_upd_same in Ifr by exact L. cbn in Ifr. destruct Ifr as [<-|[]]. apply Wf, Ih.
+    + rewrite get_thread_upd_other in Ifr by exact N. apply (W3 j fr' par); auto.
+Qed.
+
+Lemma list_sum_zero {A} (f : A -> nat) l : (forall x, In x l -> f x = 0) -> list_sum (map f l) = 0.
+Proof.
+  unfold list_sum. induction l as [|a l IH]; intros H; [reflexivity|]. cbn [map fold_right].
+  rewrite (H a) by (left; reflexivity). rewrite IH; [reflexivity|]. intros x I. apply H. right. exact I.
+Qed.
+Lemma list_sum_zero_inv {A} (f : A -> nat) l x : list_sum (map f l) = 0 -> In x l -> f x = 0.
+Proof.
+  unfold list_sum. induction l as [|a l IH]; intros H I; [contradiction|]. cbn [map fold_right] in H.
+  destruct I as [->|I]; [lia|]. apply IH; [lia|exact I].
+Qed.
+
+Lemma cntw_zero p l : ~ In (HWaitDone p) l -> cntw p l = 0.
+Proof.
+  unfold cntw. induction l as [|a l IH]; intros N; [reflexivity|]. cbn.
+  destruct a as [x|x|x|x]; cbn; try (apply IH; intros I; apply N; right; exact I).
+  destruct (Nat.eqb x p) eqn:E; [apply Nat.eqb_eq in E; subst; exfalso; apply N; left; reflexivity|].
+  apply IH. intros I. apply N. right. exact I.
+Qed.
+
+(* no WaitDone names a process that does not exist *)
+Lemma WInv_fresh st p :
+  (forall q par, q < length (procs st) -> In (HWaitDone par) (p_hooks (get_proc st q)) -> par < length (procs st)) ->
+  (forall j fr par, j < length (threads st) -> In fr (t_frames (get_thread st j)) -> In (HWaitDone par) (fst fr) -> par < length (procs st)) ->
+  length (procs st) <= p -> wreg st p = 0 /\ wfr st p = 0.
+Proof.
+  intros W2 W3 Lp. split.
+  - apply list_sum_zero. intros q Iq. apply cntw_zero. intros I.
+    destruct (In_nth _ _ (mkproc true 0 [] [] None 0) Iq) as [i [Li Ei]].
+    pose proof (W2 i p Li) as X. unfold get_proc in X. rewrite Ei in X. specialize (X I). lia.
+  - apply list_sum_zero. intros t It. apply list_sum_zero. intros fr Ifr. apply cntw_zero. intros I.
+    destruct (In_nth _ _ (mkthread []) It) as [j [Lj Ej]].
+    pose proof (W3 j fr p Lj) as X. unfold get_thread in X. rewrite Ej in X. specialize (X Ifr I). lia.
+Qed.
+
+(* replacing a process by one with the same counter and the same WaitDone hooks *)
+Lemma WInv_upd st i x :
+  i < length (procs st) -> p_wait x = p_wait (get_proc st i) ->
+  (forall p, cntw p (p_hooks x) = cntw p (p_hooks (get_proc st i))) ->
+  (forall par, In (HWaitDone par) (p_hooks x) -> In (HWaitDone par) (p_hooks (get_proc st i))) ->
+  WInv st -> WInv (upd_proc st i x).
+Proof.
+  intros Li Ew Ec Eh [W1 [W2 W3]].
+  assert (Len : length (procs (upd_proc st i x)) = length (procs st)) by (unfold upd_proc; cbn; apply set_nth_length).
+  split; [|split].
+  - intros p Lp. rewrite Len in Lp. change (wfr (upd_proc st i x) p) with (wfr st p).
+    pose proof (wreg_upd_proc st i x p Li) as X. rewrite Ec in X.
+    destruct (Nat.eq_dec i p) as [->|N]; [rewrite get_upd_same by exact Lp; rewrite Ew, (W1 p Lp); lia|].
+    rewrite get_upd_other by exact N. rewrite (W1 p Lp). lia.
+  - intros q par Lq Ih. rewrite Len in *. destruct (Nat.eq_dec i q) as [->|N].
+    + rewrite get_upd_same in Ih by exact Lq. apply (W2 q par); auto.
+    + rewrite get_upd_other in Ih by exact N. apply (W2 q par); auto.
+  - intros j fr par Lj Ifr Ih. rewrite Len. apply (W3 j fr par); auto.
+Qed.
+
+Lemma p_step_winv st op : op_ok st op -> WInv st -> WInv (fst (p_step st op)).
+Proof.
+  intros [R Rp] [W1 [W2 W3]]. destruct op as [|tid pid|tid pid h|tid pid err|tid|pid k v|pid k]; cbn [p_step]; cbn in R, Rp.
+  - (* PNew *)
+    cbn [fst]. split; [|split].
+    + intros p Lp. rewrite wreg_app. cbn [procs] in Lp. rewrite app_length in Lp. cbn in Lp.
+      change (list_sum (map (fun q => cntw p (p_hooks q)) [mkproc false 0 [] [] None 0])) with 0.
+      change (wfr (mkps (procs st ++ [mkproc false 0 [] [] None 0]) (threads st) (hlog st)) p) with (wfr st p).
+      destruct (Nat.lt_ge_cases p (length (procs st))) as [Hp|Hp].
+      * unfold get_proc. cbn [procs]. rewrite app_nth1 by exact Hp. fold (get_proc st p). rewrite (W1 p Hp). lia.
+      * assert (p = length (procs st)) by lia. subst p. unfold get_proc. cbn [procs]. rewrite app_nth2, Nat.sub_diag by lia. cbn [nth p_wait].
+        destruct (WInv_fresh st (length (procs st)) W2 W3 (Nat.le_refl _)) as [Z1 Z2]. lia.
+    + intros q par Lq Ih. cbn [procs] in *. rewrite app_length in *. cbn in Lq.
+      destruct (Nat.lt_ge_cases q (length (procs st))) as [Hq|Hq].
+      * unfold get_proc in Ih. cbn [procs] in Ih. rewrite app_nth1 in Ih by exact Hq. pose proof (W2 q par Hq Ih). cbn. lia.
+      * assert (q = length (procs st)) by lia. subst q. unfold get_proc in Ih. cbn [procs] in Ih. rewrite app_nth2, Nat.sub_diag in Ih by lia. cbn in Ih. contradiction.
+    + intros j fr par Lj Ifr Ih. cbn [procs]. rewrite app_length. pose proof (W3 j fr par Lj Ifr Ih). lia.
+  - (* PFork *)
+    destruct (idle st tid) eqn:I; cbn [negb]; [|split; [exact W1|split; [exact W2|exact W3]]].
+    set (p0 := get_proc st pid).
+    set (p' := mkproc (p_term p0) (p_err p0) (p_hooks p0) (p_data p0) (p_parent p0) (S (p_wait p0))).
+    set (st1 := mkps (set_nth pid p' (procs st) ++ [mkproc false 0 [HWaitDone pid] [] (Some pid) 0]) (threads st) (hlog st)).
+    assert (Len1 : length (procs st1) = S (length (procs st))) by (cbn; rewrite app_length, set_nth_length; cbn; lia).
+    assert (G1 : forall i, i < length (procs st) -> get_proc st1 i = get_proc (upd_proc st pid p') i).
+    { intros i Li. unfold get_proc, st1, upd_proc. cbn [procs]. rewrite app_nth1 by (rewrite set_nth_length; exact Li). reflexivity. }
+    assert (Gc : get_proc st1 (length (procs st)) = mkproc false 0 [HWaitDone pid] [] (Some pid) 0).
+    { unfold get_proc, st1. cbn [procs]. rewrite app_nth2 by (rewrite set_nth_length; lia). rewrite set_nth_length, Nat.sub_diag. reflexivity. }
+    assert (WR : forall p, wreg st1 p = wreg st p + (if Nat.eqb pid p then 1 else 0)).
+    { intros p. change st1 with (mkps (procs (upd_proc st pid p') ++ [mkproc false 0 [HWaitDone pid] [] (Some pid) 0]) (threads (upd_proc st pid p')) (hlog (upd_proc st pid p'))).
+      rewrite wreg_app, (wreg_same_hooks st pid p' p eq_refl). cbn [map list_sum fold_right p_hooks]. rewrite cntw_single. lia. }
+    assert (W1' : forall p, p < length (procs st1) -> p_wait (get_proc st1 p) = wreg st1 p + wfr st1 p).
+    { intros p Lp. rewrite Len1 in Lp. rewrite WR. change (wfr st1 p) with (wfr st p).
+      destruct (Nat.lt_ge_cases p (length (procs st))) as [Hp|Hp].
+      - rewrite (G1 p Hp). destruct (Nat.eq_dec pid p) as [->|N].
+        + rewrite get_upd_same by exact Hp. cbn [p_wait p']. rewrite Nat.eqb_refl. unfold p0. rewrite (W1 p Hp). lia.
+        + rewrite get_upd_other by exact N. destruct (Nat.eqb pid p) eqn:E; [apply Nat.eqb_eq in E; congruence|]. rewrite (W1 p Hp). lia.
+      - assert (p = length (procs st)) by lia. subst p. rewrite Gc. cbn [p_wait].
+        destruct (WInv_fresh st (length (procs st)) W2 W3 (Nat.le_refl _)) as [Z1 Z2].
+        destruct (Nat.eqb pid (length (procs st))) eqn:E; [apply Nat.eqb_eq in E; lia|]. lia. }
+    assert (W2' : forall q par, q < length (procs st1) -> In (HWaitDone par) (p_hooks (get_proc st1 q)) -> par < length (procs st1)).
+    { intros q par Lq Ih. rewrite Len1 in *. destruct (Nat.lt_ge_cases q (length (procs st))) as [Hq|Hq].
+      - rewrite (G1 q Hq) in Ih. destruct (Nat.eq_dec pid q) as [->|N].
+        + rewrite get_upd_same in Ih by exact Hq. cbn in Ih. pose proof (W2 q par Hq Ih). lia.
+        + rewrite get_upd_other in Ih by exact N. pose proof (W2 q par Hq Ih). lia.
+      - assert (q = length (procs st)) by lia. subst q. rewrite Gc in Ih. cbn in Ih. destruct Ih as [E|[]]. inversion E; subst. lia. }
+    assert (W3' : forall j fr par, j < length (threads st1) -> In fr (t_frames (get_thread st1 j)) -> In (HWaitDone par) (fst fr) -> par < length (procs st1)).
+    { intros j fr par Lj Ifr Ih. rewrite Len1. pose proof (W3 j fr par Lj Ifr Ih). lia. }
+    destruct (p_term (get_proc st1 pid)) eqn:T.
+    + (* parent terminated: the child is flipped and its WaitDone runs on this thread *)
+      assert (Lc : length (procs st) < length (procs st1)) by lia.
+      assert (FS : flip st1 (length (procs st)) (p_err (get_proc st1 pid)) =
+                   (upd_proc st1 (length (procs st)) (mkproc true (p_err (get_proc st1 pid)) [] [] (Some pid) 0), [HWaitDone pid])).
+      { unfold flip. rewrite Gc. cbn. reflexivity. }
+      rewrite FS. cbn [fst].
+      set (st2 := upd_proc st1 (length (procs st)) (mkproc true (p_err (get_proc st1 pid)) [] [] (Some pid) 0)).
+      assert (Len2 : length (procs st2) = length (procs st1)) by (unfold st2, upd_proc; cbn [procs]; apply set_nth_length).
+      apply advance_winv; [rewrite length_threads_upd; exact R|].
+      apply WInv_push; [exact R|exact I| | | |].
+      * intros p Lp. rewrite Len2 in Lp. change (wfr st2 p) with (wfr st1 p).
+        pose proof (wreg_upd_proc st1 (length (procs st)) (mkproc true (p_err (get_proc st1 pid)) [] [] (Some pid) 0) p Lc) as X.
+        rewrite Gc in X. cbn [p_hooks] in X. change (cntw p []) with 0 in X. fold st2 in X. rewrite cntw_rev.
+        destruct (Nat.eq_dec (length (procs st)) p) as [<-|N].
+        -- unfold st2. rewrite get_upd_same by exact Lc. cbn [p_wait]. pose proof (W1' _ Lc) as Y. rewrite Gc in Y. cbn [p_wait] in Y. fold st2. lia.
+        -- unfold st2. rewrite get_upd_other by exact N. fold st2. rewrite (W1' p Lp). lia.
+      * intros q par Lq Ih. rewrite Len2 in *. destruct (Nat.eq_dec (length (procs st)) q) as [<-|N].
+        -- unfold st2 in Ih. rewrite get_upd_same in Ih by exact Lc. cbn in Ih. contradiction.
+        -- unfold st2 in Ih. rewrite get_upd_other in Ih by exact N. apply (W2' q par); auto.
+      * intros j fr par Lj Ifr Ih. rewrite Len2. apply (W3' j fr par); auto.
+      * intros par Ih. cbn in Ih. destruct Ih as [E|[]]. inversion E; subst. rewrite Len2. lia.
+    + cbn [fst]. set (p1 := get_proc st1 pid).
+      assert (Lp1 : pid < length (procs st1)) by lia.
+      apply WInv_upd; [exact Lp1|reflexivity| | |split; [exact W1'|split; [exact W2'|exact W3']]].
+      * intros p. cbn [p_hooks]. rewrite cntw_app. change (cntw p [HChild (length (procs st))]) with 0. fold p1. lia.
+      * intros par Ih. cbn [p_hooks] in Ih. apply in_app_or in Ih. destruct Ih as [Ih|[E|[]]]; [exact Ih|discriminate].
+  - (* PAddHook *)
+    destruct (idle st tid) eqn:I; cbn [negb]; [|split; [exact W1|split; [exact W2|exact W3]]].
+    destruct (p_term (get_proc st pid)) eqn:T; cbn [fst].
+    + apply advance_winv; [rewrite length_threads_upd; exact R|].
+      apply WInv_push; auto.
+      * intros p Lp. change (cntw p [HUser h]) with 0. rewrite (W1 p Lp). lia.
+      * intros par Ih. destruct Ih as [E|[]]. discriminate.
+    + destruct (existsb (hook_eqb (HUser h)) (p_hooks (get_proc st pid))); cbn [fst]; [split; [exact W1|split; [exact W2|exact W3]]|].
+      apply WInv_upd; [exact Rp|reflexivity| | |split; [exact W1|split; [exact W2|exact W3]]].
+      * intros p. cbn [p_hooks]. rewrite cntw_app. change (cntw p [HUser h]) with 0. lia.
+      * intros par Ih. cbn [p_hooks] in Ih. apply in_app_or in Ih. destruct Ih as [Ih|[E|[]]]; [exact Ih|discriminate].
+  - (* PExit *)
+    destruct (idle st tid) eqn:I; cbn [negb]; [|split; [exact W1|split; [exact W2|exact W3]]].
+    pose proof (flip_tok st pid err 0) as [_ [Th _]].
+    assert (FW : forall p, wreg (fst (flip st pid err)) p + cntw p (snd (flip st pid err)) = wreg st p) by (intros p; apply flip_w).
+    destruct (flip_w st pid err 0) as [_ [Len [Wt [Hk Tk]]]].
+    destruct (flip st pid err) as [st1 taken] eqn:FL. cbn [fst snd] in *.
+    assert (L1 : tid < length (threads st1)) by (rewrite Th; exact R).
+    assert (I1 : idle st1 tid = true) by (unfold idle, get_thread in *; rewrite Th; exact I).
+    apply advance_winv; [rewrite length_threads_upd; exact L1|].
+    apply WInv_push; auto.
+    + intros p Lp. rewrite Len in Lp. rewrite cntw_rev, Wt, (W1 p Lp).
+      assert (Us : wfr st1 p = wfr st p) by (unfold wfr; rewrite Th; reflexivity). pose proof (FW p). lia.
+    + intros q par Lq Ih. rewrite Len in *. apply (W2 q par); auto.
+    + intros j fr par Lj Ifr Ih. rewrite Len. rewrite Th in Lj. unfold get_thread in Ifr. rewrite Th in Ifr. apply (W3 j fr par); auto.
+    + intros par Ih. apply in_rev_elim in Ih. destruct (Tk _ Ih) as [Lq Iq]. rewrite Len. apply (W2 pid par); auto.
+  - (* PStep *)
+    destruct (t_frames (get_thread st tid)) as [|[[|[x|c0|par|x] hs] err] rest] eqn:F; cbn [fst]; try (split; [exact W1|split; [exact W2|exact W3]]).
+    apply advance_winv; [rewrite length_threads_upd; exact R|].
+    split; [|split; [exact W2|]].
+    + intros p Lp. change (get_proc (upd_thread st tid (mkthread ((hs, err) :: rest))) p) with (get_proc st p).
+      change (wreg (upd_thread st tid (mkthread ((hs, err) :: rest))) p) with (wreg st p).
+      pose proof (wfr_upd_thread st tid (mkthread ((hs, err) :: rest)) p R) as U. unfold wfcnt in U. rewrite F in U.
+      cbn [t_frames map list_sum fold_right fst] in U. change (cntw p (HParked x :: hs)) with (cntw p hs) in U. rewrite (W1 p Lp). lia.
+    + intros j fr par Lj Ifr Ih. rewrite length_threads_upd in Lj. destruct (Nat.eq_dec j tid) as [->|N].
+      * rewrite get_thread_upd_same in Ifr by exact R. cbn in Ifr. destruct Ifr as [<-|Ifr].
+        -- apply (W3 tid (HParked x :: hs, err) par); auto. rewrite F. left. reflexivity. right. exact Ih.
+        -- apply (W3 tid fr par); auto. rewrite F. right. exact Ifr.
+      * rewrite get_thread_upd_other in Ifr by exact N. apply (W3 j fr par); auto.
+  - (* PSet *) cbn [fst]. apply WInv_upd; auto. split; [exact W1|split; [exact W2|exact W3]].
+  - (* PRemove *) cbn [fst]. apply WInv_upd; auto. split; [exact W1|split; [exact W2|exact W3]].
+Qed.
+
+Lemma run_inv_from st ops :
+  ok_from st ops -> WInv st -> TokInv st ->
+  WInv (fold_left (fun st op => fst (p_step st op)) ops st) /\ TokInv (fold_left (fun st op => fst (p_step st op)) ops st).
+Proof.
+  revert st. induction ops as [|op ops IH]; intros st OK W T; cbn [fold_left]; [auto|].
+  destruct OK as [OKop OKr]. apply IH; auto using p_step_winv, p_step_tokinv.
+Qed.
+
+Lemma wfr_zero st p : (forall t, In t (threads st) -> t_frames t = []) -> wfr st p = 0.
+Proof.
+  intros H. apply list_sum_zero. intros t It. unfold wfcnt. rewrite (H t It). reflexivity.
+Qed.
+
+(* Join: once no thread has anything left to run, the WaitGroup counter of a process is zero - Join returns -
+   exactly when every process forked from it has terminated *)
+Theorem join_waits n ops :
+  ok_from (p_init n) ops ->
+  let st := p_run n ops in
+  (forall t, In t (threads st) -> t_frames t = []) ->
+  forall p, p < length (procs st) ->
+    (p_wait (get_proc st p) = 0 <->
+     forall c, c < length (procs st) -> p_parent (get_proc st c) = Some p -> p_term (get_proc st c) = true).
+Proof.
+  intros OK st Done p Lp.
+  destruct (run_inv_from (p_init n) ops OK) as [[W1 _] TI].
+  { split; [|split]; cbn; [intros q Lq; lia|intros q par Lq; lia|intros j fr par Lj Ifr; rewrite nth_repeat in Ifr; contradiction]. }
+  { intros q q' Lq. cbn in Lq. lia. }
+  fold (p_run n ops) in W1, TI. fold st in W1, TI.
+  rewrite (W1 p Lp), (wfr_zero st p Done), Nat.add_0_r.
+  pose proof (p_run_nohooks n ops) as NH. fold st in NH.
+  split.
+  - intros Z c Lc Pc. destruct (p_term (get_proc st c)) eqn:T; [reflexivity|]. exfalso.
+    assert (Ic : In (get_proc st c) (procs st)) by (unfold get_proc; apply nth_In; exact Lc).
+    pose proof (list_sum_zero_inv (fun q => cntw p (p_hooks q)) (procs st) (get_proc st c) Z Ic) as X. cbn beta in X.
+    rewrite (TI c p Lc T) in X. unfold parent_is in X. rewrite Pc, Nat.eqb_refl in X. discriminate.
+  - intros H. apply list_sum_zero. intros q Iq. destruct (In_nth _ _ (mkproc true 0 [] [] None 0) Iq) as [c [Lc Ec]].
+    fold (get_proc st c) in Ec. subst q. destruct (p_term (get_proc st c)) eqn:T.
+    + rewrite (nohooks_get st c NH T). reflexivity.
+    + rewrite (TI c p Lc T). unfold parent_is. destruct (p_parent (get_proc st c)) as [x|] eqn:Pc; [|reflexivity].
+      destruct (Nat.eqb x p) eqn:E; [|reflexivity]. apply Nat.eqb_eq in E. subst x. rewrite (H c Lc Pc) in T. discriminate.
+Qed.
